@@ -90,10 +90,11 @@ INT_BIN = ("add", "sub", "mul", "div", "rem", "and", "or", "xor", "shl", "shr", 
 
 
 class Machine:
-    def __init__(self, units, registers):
+    def __init__(self, units, registers, cache=None):
         self.u = units
         self.r = [0] * registers
         self.steps = 0
+        self.cache = {} if cache is None else cache  # pc -> Decoded (decoding is pure, so it can be shared between runs)
 
     # register access ---------------------------------------------------------------------------
     def gi(self, n):
@@ -111,9 +112,22 @@ class Machine:
         self.r[n + 1] = v >> 32
 
 
-def run(units, registers, ins, args, arg_types, step_cap=20000):
+class Program:
+    """one method: code units + frame shape; keeps the decode cache between runs"""
+
+    def __init__(self, units, registers, ins, arg_types):
+        self.units, self.registers, self.ins, self.arg_types = list(units), registers, ins, arg_types
+        self.cache = {}
+        self.max_steps = 0
+
+    def run(self, args, step_cap=20000):
+        r = run(self.units, self.registers, self.ins, args, self.arg_types, step_cap, self.cache, self)
+        return r
+
+
+def run(units, registers, ins, args, arg_types, step_cap=20000, cache=None, prog=None):
     """args: python ints (already in range for their type); arg_types: 'I' or 'J' per arg. Params live in the LAST `ins` registers."""
-    m = Machine(units, registers)
+    m = Machine(units, registers, cache)
     n = registers - ins
     for a, t in zip(args, arg_types):
         if t == "J":
@@ -132,6 +146,9 @@ def run(units, registers, ins, args, arg_types, step_cap=20000):
         return ("error", "unsupported: %s" % e)
     except IndexError as e:
         return ("error", "ran outside the method or register file: %s" % e)
+    finally:
+        if prog is not None and m.steps > prog.max_steps:
+            prog.max_steps = m.steps
 
 
 def _loop(m, step_cap):
@@ -144,9 +161,12 @@ def _loop(m, step_cap):
             return ("cap",)
         if not (0 <= pc < nunits):
             return ("error", "pc %d outside the method" % pc)
-        d = D.decode(u[pc:pc + 5])
+        d = m.cache.get(pc)
         if d is None:
-            return ("error", "unused opcode at %d" % pc)
+            d = D.decode(u[pc:pc + 5])
+            if d is None:
+                return ("error", "unused opcode at %d" % pc)
+            m.cache[pc] = d
         name = d.name
         nxt = pc + d.units
         R = d.regs
